@@ -43,6 +43,13 @@ CLAIMED["C08"] = dict(
     design_ref="§5 C08",
 )
 
+CLAIMED["C09"] = dict(
+    category="exploration",
+    technique="exhaustive enumeration of permutations, paddings, splits and ordered subsets per model family; differential oracle against the original / directly built model",
+    text="For every model family all n! relabellings, every zero-mole padding position, every split and every ordered subset of component indices (with default and non-default option structs) are built as real models and compared with the original on several states, including the pure-component helper algorithms that work through Components::subset.",
+    design_ref="§5 C09",
+)
+
 NOT_YET = "check not built yet (work in progress; see DESIGN.md §9 build order) - not a claim that the technique cannot apply"
 
 ALL = ["C%02d" % i for i in range(1, 21)]
